@@ -50,6 +50,8 @@ func c15input(ops []c15op) hv.V {
 			l = append(l, hv.L(hv.I(5), hv.U(o.v)))
 		case 6:
 			l = append(l, hv.L(hv.I(6), hv.I(int64(o.a))))
+		case 7:
+			l = append(l, hv.L(hv.I(7), hv.I(int64(o.a*o.b+1)))) // +1: the enumerating plan inside c15balance
 		}
 	}
 	return hv.L(l...)
@@ -93,6 +95,8 @@ func c15exec(ops []c15op) (out hv.V) {
 			proxycore.VerifSetLBIndex(lb, o.v)
 		case 6:
 			outs = append(outs, hv.L(hv.Bool(c15concurrent(lb, o.a))))
+		case 7:
+			outs = append(outs, hv.L(hv.Bool(c15balance(lb, o.a, o.b))))
 		}
 	}
 	return hv.L(outs...)
@@ -139,6 +143,45 @@ func c15concurrent(lb proxycore.LoadBalancer, rounds int) (ok bool) {
 	close(stop)
 	wg.Wait()
 	return ok
+}
+
+// g goroutines create p plans each on stable membership; with an atomic counter the offsets
+// handed out are exactly a contiguous range, so first-choice counts differ by at most one
+// whatever the interleaving.
+func c15balance(lb proxycore.LoadBalancer, g, p int) bool {
+	var mu sync.Mutex
+	counts := map[string]int{}
+	var wg sync.WaitGroup
+	for w := 0; w < g; w++ {
+		wg.Add(1)
+		go func() {
+			defer wg.Done()
+			local := map[string]int{}
+			for i := 0; i < p; i++ {
+				if h := lb.NewQueryPlan().Next(); h != nil {
+					local[h.Key()]++
+				}
+			}
+			mu.Lock()
+			for k, v := range local {
+				counts[k] += v
+			}
+			mu.Unlock()
+		}()
+	}
+	wg.Wait()
+	lo, hi := 1<<62, 0
+	qp := lb.NewQueryPlan() // enumerate members (advances the counter by one; accounted for by the caller)
+	for h := qp.Next(); h != nil; h = qp.Next() {
+		c := counts[h.Key()]
+		if c < lo {
+			lo = c
+		}
+		if c > hi {
+			hi = c
+		}
+	}
+	return hi-lo <= 1
 }
 
 // well-formed random history with plans created, held and consumed at every point
@@ -287,6 +330,15 @@ func genC15(ctx *Ctx) {
 			ops = append(ops, c15op{kind: 3}, c15op{kind: 4, a: p, b: n + 1})
 		}
 		emit(ops, "rotation-run")
+	}
+	// concurrent plan creation: first-choice balance
+	for i := 0; i < ctx.Scale(6, 60); i++ {
+		n := 2 + r.Intn(4)
+		hs := []int{}
+		for h := 1; h <= n; h++ {
+			hs = append(hs, h)
+		}
+		emit([]c15op{{kind: 0, hosts: hs}, {kind: 7, a: 8, b: ctx.Scale(5000, 50000)}, {kind: 3}, {kind: 4, a: 0, b: n + 1}}, "concurrent-balance")
 	}
 	// concurrent use
 	for i := 0; i < ctx.Scale(3, 40); i++ {
